@@ -8,6 +8,7 @@ import (
 	"math/rand"
 	"os"
 	"path/filepath"
+	"time"
 
 	wt "github.com/hnakamur/whispertool"
 
@@ -332,3 +333,86 @@ func ChildMain(args []string) int {
 }
 
 var childRoles = map[string]func([]string) int{}
+
+// waitingOpener: a locking handle A is opened on path; a second locking Open (B) starts while A holds the file and
+// has to wait; A then writes points into every archive, Syncs and Closes. B must see exactly A's final state.
+// It returns a description of the first disagreement ("" if none) and whether B had to wait at all.
+func waitingOpener(path string, l model.Layout, now int64, r *rand.Rand) (diff string, waited bool) {
+	a, err := wt.Open(path)
+	if err != nil {
+		return "holder Open failed: " + err.Error(), false
+	}
+	var b *wt.Whisper
+	var berr error
+	done := make(chan struct{})
+	go func() { b, berr = wt.Open(path); close(done) }()
+	time.Sleep(25 * time.Millisecond)
+	select {
+	case <-done:
+	default:
+		waited = true
+	}
+	for ai, ar := range l.Archs {
+		n := 40
+		if ai > 0 {
+			n = 6
+		}
+		for j := 0; j < n; j++ {
+			t := inRangeTime(r, now, ar.Ret())
+			if err := a.UpdatePointForArchive(ai, u32(t), wt.Value(float64(1000+j)+0.125), u32(now)); err != nil {
+				a.Close()
+				<-done
+				if b != nil {
+					b.Close()
+				}
+				return "holder update failed: " + err.Error(), waited
+			}
+		}
+	}
+	rawA, rerr := rawOf(a)
+	serr := a.Sync()
+	a.Close()
+	select {
+	case <-done:
+	case <-time.After(60 * time.Second):
+		return "the waiting Open did not return within 60 s after the holder closed", waited
+	}
+	if rerr != nil || serr != nil {
+		if b != nil {
+			b.Close()
+		}
+		return fmt.Sprintf("holder read/sync failed: %v %v", rerr, serr), waited
+	}
+	if berr != nil {
+		return "the waiting Open failed: " + berr.Error(), waited
+	}
+	defer b.Close()
+	rawB, err := rawOf(b)
+	if err != nil {
+		return "the waiting handle cannot read: " + err.Error(), waited
+	}
+	for ai := range rawA {
+		if d := model.EqualSlots(rawA[ai], rawB[ai]); d >= 0 {
+			return fmt.Sprintf("archive %d slot %d: the holder synced %v, the handle whose Open waited for the lock reads %v", ai, d, rawA[ai][d], rawB[ai][d]), waited
+		}
+	}
+	// and through the fetch interface
+	for ai, ar := range l.Archs {
+		ts, err := b.FetchFromArchive(ai, u32(now-ar.Ret()), u32(now), u32(now))
+		if err != nil || ts == nil {
+			return fmt.Sprintf("archive %d: fetch through the waiting handle failed: %v", ai, err), waited
+		}
+		for i, p := range ts.Points() {
+			want := math.NaN()
+			idx := model.SlotIndex(rawA[ai][0].T, int64(p.Time), ar)
+			if rawA[ai][0].T != 0 && int64(rawA[ai][idx].T) == int64(p.Time) {
+				want = math.Float64frombits(rawA[ai][idx].Bits)
+			}
+			got := float64(p.Value)
+			if math.Float64bits(want) != math.Float64bits(got) && !(want != want && got != got) {
+				return fmt.Sprintf("archive %d value %d (t=%d): the waiting handle fetches %v, the holder synced %v", ai, i, p.Time, got, want), waited
+			}
+		}
+	}
+	return "", waited
+}
